@@ -86,10 +86,16 @@ impl Server for Gs3AttemptServer {
         conn.queue.clear();
         let (k, here) = if hs {
             self.handshakes += 1;
-            (self.handshakes - 1, self.pos == 0)
+            // position 2: the k-th attempt of the unit fails at the handshake (k even) or at the data request (k odd)
+            (self.handshakes - 1, self.pos == 0 || (self.pos == 2 && (self.handshakes - 1) % 2 == 0))
         } else {
             self.data_requests += 1;
-            (self.data_requests - 1, self.pos == 1)
+            if self.pos == 2 {
+                let unit = self.handshakes.saturating_sub(1);
+                (unit, unit % 2 == 1)
+            } else {
+                (self.data_requests - 1, self.pos == 1)
+            }
         };
         let att = if here { self.plan.get(k).copied().unwrap_or(Att::Valid) } else { Att::Valid };
         match att {
@@ -125,6 +131,8 @@ struct Subject {
     positions: usize,
     /// positions whose failure leaves the rest intact (gather Try): the expected result is the baseline of the "absent" variant
     try_positions: Vec<usize>,
+    /// handshake-plus-request unit: every data request must directly follow a handshake of its own attempt
+    unit: bool,
 }
 
 fn addr() -> SocketAddr { SocketAddr::new(IpAddr::V4(Ipv4Addr::new(10, 10, 0, 1)), 4000) }
@@ -148,6 +156,7 @@ fn simple_subject<T: 'static>(name: &'static str, is_request: fn(&[u8]) -> bool,
         name,
         positions: 1,
         try_positions: vec![],
+        unit: false,
         is_attempt: Box::new(move |_, d| is_request(d)),
         run: Box::new(move |_pos, plan, r| {
             let server = AttemptServer { is_request, valid: valid.clone(), malformed: malformed.clone(), plan: plan.to_vec(), attempts: 0 };
@@ -173,6 +182,7 @@ fn subjects(rng: &mut Rng) -> Vec<Subject> {
         v.push(Subject {
             name: if try_mode { "valve(try)" } else { "valve(enforce)" },
             positions: 3,
+            unit: false,
             try_positions: if try_mode { vec![1, 2] } else { vec![] },
             is_attempt: Box::new(|p, d| match p {
                 0 => fresh_info(d),
@@ -259,9 +269,10 @@ fn subjects(rng: &mut Rng) -> Vec<Subject> {
         let data = Gs3State::frame(&p);
         v.push(Subject {
             name: "gamespy3",
-            positions: 2,
+            positions: 3,
             try_positions: vec![],
-            is_attempt: Box::new(|p, d| if p == 0 { d == [0xfe, 0xfd, 0x09, 0, 0, 0, 1] } else { d.len() >= 7 && d[.. 3] == [0xfe, 0xfd, 0x00] }),
+            unit: true,
+            is_attempt: Box::new(|p, d| if p != 1 { d == [0xfe, 0xfd, 0x09, 0, 0, 0, 1] } else { d.len() >= 7 && d[.. 3] == [0xfe, 0xfd, 0x00] }),
             run: Box::new(move |pos, plan, r| {
                 let server = Gs3AttemptServer { data: data.clone(), pos, plan: plan.to_vec(), handshakes: 0, data_requests: 0 };
                 let run = run_with(server, DEFAULT_STEP_LIMIT, || gamespy::three::query(&addr(), ts(r)).map(|mut x| {
@@ -275,9 +286,10 @@ fn subjects(rng: &mut Rng) -> Vec<Subject> {
         let jd = vec![js.datagram(rng)];
         v.push(Subject {
             name: "jc2m",
-            positions: 2,
+            positions: 3,
             try_positions: vec![],
-            is_attempt: Box::new(|p, d| if p == 0 { d == [0xfe, 0xfd, 0x09, 0, 0, 0, 1] } else { d.len() >= 7 && d[.. 3] == [0xfe, 0xfd, 0x00] }),
+            unit: true,
+            is_attempt: Box::new(|p, d| if p != 1 { d == [0xfe, 0xfd, 0x09, 0, 0, 0, 1] } else { d.len() >= 7 && d[.. 3] == [0xfe, 0xfd, 0x00] }),
             run: Box::new(move |pos, plan, r| {
                 let server = Gs3AttemptServer { data: jd.clone(), pos, plan: plan.to_vec(), handshakes: 0, data_requests: 0 };
                 let run = run_with(server, DEFAULT_STEP_LIMIT, || games::jc2m::query_with_timeout(&addr().ip(), Some(4000), ts(r)));
@@ -295,6 +307,7 @@ fn subjects(rng: &mut Rng) -> Vec<Subject> {
         v.push(Subject {
             name: if try_mode { "unreal2(try)" } else { "unreal2(enforce)" },
             positions: 3,
+            unit: false,
             try_positions: if try_mode { vec![1, 2] } else { vec![] },
             is_attempt: Box::new(|p, d| d == [0x79, 0, 0, 0, p as u8]),
             run: Box::new(move |pos, plan, r| {
@@ -347,7 +360,7 @@ impl Check for C10 {
     fn id(&self) -> &'static str { "C10" }
     fn level(&self) -> &'static str { "fault_enumeration" }
     fn rule(&self) -> String {
-        "for every retrying protocol (Valve info/players/rules with Enforce and Try, GameSpy 1, 2, 3 handshake/data, JC2-MP, Quake 1/2/3, Unreal 2 info/rules/players with Enforce and Try, Java, Bedrock, legacy x3, Mindustry, FFOW) and every request position: all per-attempt outcome vectors over {silent, send-fails, malformed, valid} of length r+2 for r = 0..2 (quick) / 0..3 (thorough) injected at that position, other positions answered validly. From the transport log and the result: attempts at the position = min(index of first non-timeout outcome + 1, r+1); none after a malformed reply; first non-timeout outcome valid => result equals the fault-free result; malformed => failure of a non-timeout kind (or the Try section absent); all r+1 timeouts => PacketReceive/PacketSend (or the Try section absent). non-trivial = vectors containing at least one fault; distinct by (protocol, position, r, vector)".into()
+        "for every retrying protocol (Valve info/players/rules with Enforce and Try, GameSpy 1, 2, 3 and JC2-MP (handshake / data / alternating within the handshake-plus-request unit, whose wire sequence must be whole units), Quake 1/2/3, Unreal 2 info/rules/players with Enforce and Try, Java, Bedrock, legacy x3, Mindustry, FFOW) and every request position: all per-attempt outcome vectors over {silent, send-fails, malformed, valid} of length r+2 for r = 0..2 (quick) / 0..3 (thorough) injected at that position, other positions answered validly. From the transport log and the result: attempts at the position = min(index of first non-timeout outcome + 1, r+1); none after a malformed reply; first non-timeout outcome valid => result equals the fault-free result; malformed => failure of a non-timeout kind (or the Try section absent); all r+1 timeouts => PacketReceive/PacketSend (or the Try section absent). non-trivial = vectors containing at least one fault; distinct by (protocol, position, r, vector)".into()
     }
     fn assumptions(&self) -> Vec<String> {
         vec![
@@ -419,6 +432,21 @@ impl Check for C10 {
                     continue;
                 }
                 _ => {}
+            }
+            if s.unit {
+                // the unit is handshake + data request: a data request is only ever sent right after the handshake of the same attempt
+                let seq: Vec<u8> = net.sends().iter().filter_map(|(_, d)| if d.len() >= 3 && d[.. 2] == [0xfe, 0xfd] { Some(d[2]) } else { None }).collect();
+                let orphan = seq.iter().enumerate().any(|(i, k)| *k == 0x00 && (i == 0 || seq[i - 1] != 0x09));
+                let hs = seq.iter().filter(|k| **k == 0x09).count();
+                cx.count("unit-sequences-checked");
+                if orphan {
+                    cx.violation(format!("C10 {} pos={pos} data-request-without-its-own-handshake", s.name), || detail("a data request was re-sent without repeating the handshake of the unit"));
+                    continue;
+                }
+                if pos != 0 && hs != expected_attempts {
+                    cx.violation(format!("C10 {} pos={pos} unit-attempts-differ handshakes", s.name), || detail(&format!("{hs} handshakes for {expected_attempts} expected attempts of the unit")));
+                    continue;
+                }
             }
             if attempts != expected_attempts {
                 let class = if attempts > expected_attempts {
